@@ -92,6 +92,7 @@ Proof.
   intros Hh Hc. destruct h as [w q a|w q a hv o l d|q a hv o l]; cbn [deliver].
   - unfold cv_nz in Hc. destruct (cv_ok cv) eqn:Eo; cbn [negb]; [|cbn; tauto]. specialize (Hc eq_refl).
     destruct (cv_pay cv) as [[hv|v o l]|]; try (cbn; tauto).
+    destruct (t_kind q =? 0); cbn [negb]; [|cbn; split; [exact Hc|exact I]].
     destruct (zoom_ok hv (t_z q)); cbn [negb]; [|cbn; tauto]. destruct (ext_ok hv (t_ext q)); cbn [negb]; [|cbn; tauto].
     cbn. split; [exact Hc|apply tagged_sane; exact Hc].
   - cbn in Hh. destruct (cv_bad cv); [apply retry_ok|]. destruct (cv_ok cv); cbn [negb]; [|cbn; tauto].
